@@ -1,5 +1,3 @@
-RC.append(("hessian of a function of an empty (size-0) array: jacobian stacks an empty list of VJP results and numpy.stack raises ValueError instead of returning an empty zero Hessian",
-           [("C14", "hessian", "rev", "raised", "argument:empty,operator:hessian")]))
 RC.append(("np.linalg.solve with a batched matrix and a vector right-hand side that broadcasts: wrong first-order gradient (see C01) hence a non-symmetric, wrong second derivative",
            [("C07", "solve", "RR", "hessian-not-symmetric", "batch_broadcast:True,rhs_vector:True"), ("C07", "solve", "RR", "wrong-value", "batch_broadcast:True,rhs_vector:True")]))
 RC.append(("np.diag of a non-square 2-D array (namespace scan; same root cause as the C01 entry)", [("C15", "diag", "rev", "wrong-shape", "shape_rank:2")]))
